@@ -67,7 +67,8 @@ func (c15) Generate(c *Ctx) []any {
 func genC15(r *rand.Rand, n int) c15Input {
 	pkgNames := []string{"http", "http0", "http1", "mock", "a", "b", "foo", "foo0", "é", "x_y", "dst", "dst"}
 	pathPool := []string{"net/http", "x/http", "y/http", "z/http0", "q/http1", "example.com/m/foo", "example.com/m/foo/v2", "a", "b", "ä/b", "a/b", "a-b", "a.b/c", "example.com/dst", "example.com/dst"}
-	prefixes := []string{"a", "a1", "a2", "r", "ret", "http", "http0", "_", "x", "é", "", "1", "a10", "a01"}
+	// (Go keywords and the spellings a generator might derive from them are names like any other to the allocator)
+	prefixes := []string{"a", "a1", "a2", "r", "ret", "http", "http0", "_", "x", "é", "", "1", "a10", "a01", "type", "typeParam", "range", "rangeParam", "func", "type1"}
 	in := c15Input{Dst: "example.com/dst", InPkg: r.Intn(2) == 0, DstName: pick(r, []string{"", "dst", "dst", "dst_test", "http"})}
 	scopes := 0
 	// a small pool per history makes collisions frequent
